@@ -11,6 +11,16 @@ CHECKS = {
          "Every generated history (own genesis, 3-8 validators, 80 blocks, hostile reports, same-block races, expiry races) is executed through the real FinalizeBlock/Commit and compared tx-by-tx and block-by-block with a sequential lifecycle model; held on the histories observed, not a proof.",
          "Trusts CometBFT/SDK plumbing, the documented semantics of the test oracle scripts, and that chosen validators are read from the request event (selection is C09). IBC-originated requests not driven.",
          "DESIGN.md 2/C01"),
+ "C05": ("fault_enumeration",
+         "runtime monitoring with fault injection: per-member FIFO nonce model + global consumed set vs request_signature events and the DE store after every block; failpoint (build tag verif) fails member assignment after the dequeue",
+         "TSS groups are created by real DKG txs; histories mix nonce submissions (at/over the limit), resets, signing requests, time-out retries and parameter changes, while a PRNG-chosen subset of assignments fails (error or panic) after nonces were dequeued; the DE store must equal the model after every block and no registration may be assigned twice.",
+         "Signing sources here: direct requests and end-block retries (oracle/tunnel/transition sources use the same AssignMembersForSigning path and are driven under C08/C13/C18). Nonce uniqueness is by construction (255 random bits).",
+         "DESIGN.md 2/C05"),
+ "C10": ("exploration",
+         "runtime monitoring: event-derived signing tracker + lifecycle monitor (status discipline, exact time-out height, penalty set, retries, outcome events, owner notification, interim-data removal, bounded termination) after every block",
+         "Histories with several signings in flight, idle/lazy members, nonce starvation, same-block aggregation+expiry and parameter changes are executed through real ABCI; each block the monitor compares chain state and events with what the submissions it saw accepted imply.",
+         "Exact time-out height and penalty set asserted only while tss params are unchanged (the property says so); 'eventually terminates' restated as terminal within max_attempts*period+1 blocks.",
+         "DESIGN.md 2/C10"),
 }
 NA_REASON = "check not built yet (work in progress; see DESIGN.md section 2)"
 
